@@ -46,6 +46,14 @@ def _match_mode(repo: Repo, table: str) -> str:
                 if isinstance(c, ast.Call) and isinstance(c.func, ast.Attribute) and isinstance(c.func.value, ast.Name) \
                         and c.func.value.id == loop.target.id and c.func.attr in ("match", "fullmatch", "search"):
                     modes.add({"match": "match", "fullmatch": "full", "search": "search"}[c.func.attr])
+    for comp in ast.walk(fn):   # `any(pattern.fullmatch(name) for pattern in TABLE)`
+        if isinstance(comp, (ast.GeneratorExp, ast.ListComp, ast.SetComp)):
+            for g in comp.generators:
+                if isinstance(g.iter, ast.Name) and g.iter.id == table and isinstance(g.target, ast.Name):
+                    for c in ast.walk(comp):
+                        if isinstance(c, ast.Call) and isinstance(c.func, ast.Attribute) and isinstance(c.func.value, ast.Name) \
+                                and c.func.value.id == g.target.id and c.func.attr in ("match", "fullmatch", "search"):
+                            modes.add({"match": "match", "fullmatch": "full", "search": "search"}[c.func.attr])
     if len(modes) != 1:
         raise AnalysisError(f"is_path_ignored: how {table} is applied could not be read ({sorted(modes)})")
     return modes.pop()
@@ -61,7 +69,13 @@ def rule_languages(ck: Check, repo: Repo, folder: Folder, rid: str = "R1") -> di
     langs = {}
     for name, (ref, floor) in tables.items():
         impl = _regex_list(folder, name)
-        mode = _match_mode(repo, name)
+        try:
+            mode = _match_mode(repo, name)
+        except AnalysisError as err:
+            # the table is applied in a way this rule cannot read (a pre-compiled alternation, a helper): the language clause of
+            # this table stays undecided, the decision table (R2) and the other rules still run
+            ck.defer(err)
+            mode = "full"
         r.floor(floor, f"entries of {name}", got=len(impl))
         # the reference is read as a whole-name language: `$` = end of the name, `.` = any character (a name may contain
         # line breaks); the implementation keeps CPython's semantics (`$` also before one final "\n", `.` without "\n")
